@@ -19,12 +19,21 @@ from harness.tlaparse import iter_dump_states
 # Coded deviations of handlers/UMN.py from the manual that the transcription in spec/UMN.tla follows.
 # When /repo gets a fix: for one of them, delete its name here (the check reports DRIFT until then).
 QUIRKS = ["DashOnlyInCap", "CommentEndsBlock", "NumAlwaysMerged", "DoubleHideCrash"]
+if os.environ.get("VERIF_C08_QUIRKS") is not None:      # development: try the model without a quirk
+    QUIRKS = [q for q in os.environ["VERIF_C08_QUIRKS"].split(",") if q]
 
 MC_CFG = """SPECIFICATION Spec
 CONSTANTS
   Quirks = {%(quirks)s}
   Tier = "%(tier)s"
 INVARIANT AsDocumented
+CHECK_DEADLOCK FALSE
+"""
+BLOCK_CFG = """SPECIFICATION Spec
+CONSTANTS
+  Quirks = {%(quirks)s}
+INVARIANT BlockAsDocumented
+PROPERTY Progress
 CHECK_DEADLOCK FALSE
 """
 TRACE_CFG = """SPECIFICATION TSpec
@@ -41,6 +50,7 @@ TIMEOUTS = {"quick": 600, "thorough": 3000}
 _W = None
 _WMODE = None
 _HANDLERS = "default"
+_ROOTS = None          # parent-owned scratch directory holding the workers' document roots (removed by the parent)
 
 
 def _cfg(text, tier=""):
@@ -55,7 +65,7 @@ def _world(mode):
         from harness.world import World
         if _W is not None:
             _W.close()
-        _W = World(handlers=_HANDLERS, overrides={
+        _W = World(root=_new_root(), handlers=_HANDLERS, overrides={
             ("handlers.UMN.UMNDirHandler", "extstrip"): mode,
             ("handlers.dir.DirHandler", "cachetime"): "0",
             ("pygopherd", "abstract_entries"): "always",
@@ -66,6 +76,13 @@ def _world(mode):
             ("handlers.file.CompressedFileHandler", "decompressors"): "{}"})
         _WMODE = mode
     return _W
+
+
+def _new_root():
+    import tempfile
+    if _ROOTS is None:
+        return None                      # World makes (and close() removes) its own
+    return tempfile.mkdtemp(prefix="root-", dir=_ROOTS)
 
 
 def _text(lines):
@@ -166,14 +183,20 @@ def cases_from_tlc(tier):
 
 
 def replay_cases(cases, handlers="default"):
-    global _HANDLERS
+    global _HANDLERS, _ROOTS
+    import shutil
     from harness import cachelib
     _HANDLERS = handlers
+    _ROOTS = tlc.new_scratch("c08roots")
     order = sorted(range(len(cases)), key=lambda i: (cases[i]["dir"]["mode"], i))     # few World switches per worker
     procs = int(os.environ.get("VERIF_PROCS") or 16)
     # contiguous blocks per mode so that each worker keeps one World as long as possible
     jobs = [(cases[i]["dir"], cases[i]["kinds"]) for i in order]
-    results = cachelib.pool_map(run_case, jobs, _init_worker, procs=procs)
+    try:
+        results = cachelib.pool_map(run_case, jobs, _init_worker, procs=procs)
+    finally:
+        shutil.rmtree(_ROOTS, ignore_errors=True)
+        _ROOTS = None
     out = [None] * len(cases)
     for i, r in zip(order, results):
         out[i] = r
@@ -202,8 +225,14 @@ def selftest():
          "lf": {"has": True, "lines": ["Name=Mid", "Path=/abs", "Host=+", "Port=+", "", "Path=./b", "Numb=1"]},
          "cap": {"has": False, "f": "", "lines": []}, "side": [{"f": "a.txt", "text": ["side one"]}], "srv": dict(SERVER)}
     case = {"dir": d, "kinds": ["file", "dir", "file"], "cls": "none", "scope": True}
+    global _W
     _init_worker()
-    ev, _extra = run_case((d, case["kinds"]))
+    try:
+        ev, _extra = run_case((d, case["kinds"]))
+    finally:
+        if _W is not None:
+            _W.close()
+            _W = None
     good = {"id": "good", "init": {"dir": d}, "events": [{"ev": "listing", "ok": ev["ok"], "out": ev["out"]}]}
     variants = [good]
     for name, f in (("host-corrupted", lambda o: o[1].__setitem__("host", "+")),
@@ -226,17 +255,25 @@ def _dbgkey(traces, rj):
 
 def main(chk, replay=None):
     tier = chk.tier
-    # 1. design model: code-as-transcribed against the manual on every enumerated directory
-    res, cases = cases_from_tlc(tier)
-    if res["inv_violations"]:
-        chk.model_violation("MC_C08", res["inv_violations"], res["out"][-3000:])
-    n_scope = sum(1 for c in cases if c["scope"])
-    if not cases or n_scope == 0:
-        raise core.MachineryError("C08: TLC produced no in-scope directory (cases=%d)" % len(cases))
-    if replay:
+    if replay:                       # exactly the stored case; the models are not re-run
         with open(replay) as fp:
             rp = json.load(fp)
         cases = [rp["case"]]
+        res = blk = {"distinct": 0, "generated": 0, "cmd": "(replay: models not run)", "inv_violations": []}
+        n_scope = int(bool(rp["case"]["scope"]))
+    else:
+        # 1. design model: code-as-transcribed against the manual on every enumerated directory
+        res, cases = cases_from_tlc(tier)
+        if res["inv_violations"]:
+            chk.model_violation("MC_C08", res["inv_violations"], res["out"][-3000:])
+        # the block parser as a state machine over the lines of one block (one transition per loop iteration)
+        blk = tlc.check_model("MC_C08_block", "MC_C08_block_run.cfg", extra_files={"MC_C08_block_run.cfg": _cfg(BLOCK_CFG)},
+                              timeout=TIMEOUTS[tier])
+        if blk["inv_violations"]:
+            chk.model_violation("MC_C08_block", blk["inv_violations"], blk["out"][-3000:])
+        n_scope = sum(1 for c in cases if c["scope"])
+        if not cases or n_scope == 0:
+            raise core.MachineryError("C08: TLC produced no in-scope directory (cases=%d)" % len(cases))
     # 2. spec -> code: every directory TLC evaluated, through the real server
     handler_lists = ["default"] if tier == "quick" or replay else ["default", "full"]
     if replay and rp["case"].get("handlers"):
@@ -290,8 +327,10 @@ def main(chk, replay=None):
         by_cls[c["cls"]] = by_cls.get(c["cls"], 0) + 1
     rnd = random.Random(chk.seed)
     samples = [{"dir": t["case"]["dir"], "observed": t["events"][0]["out"]} for t in rnd.sample(scoped, min(3, len(scoped)))]
+    by_cls = dict(sorted(by_cls.items()))
     cov = {
-        "states": res["distinct"], "transitions": res["generated"], "exhaustive": True,
+        "states": res["distinct"] + blk["distinct"], "transitions": res["generated"] + blk["generated"], "exhaustive": True,
+        "states_by_model": {"MC_C08": res["distinct"], "MC_C08_block": blk["distinct"]},
         "traces_validated_against_impl": tv["accepted"], "traces_rejected": len(tv["rejected"]),
         "evaluations": len(traces), "distinct_nontrivial": len(nontrivial),
         "rule": "cases = every directory of MC_C08 (families: all orders of all subsets of the six field lines, all "
@@ -300,7 +339,7 @@ def main(chk, replay=None):
                 "through the real server per handler list %s; in scope (well-formed, no ties/conflicts) = %d of %d; "
                 "non-trivial = in-scope case whose lexed menu differs from the menu of the same bare directory"
                 % (handler_lists, n_scope, len(cases)),
-        "samples": samples, "checker_cmd": res["cmd"] + " ; " + tv["cmd"],
+        "samples": samples, "checker_cmd": res["cmd"] + " ; " + blk["cmd"] + " ; " + tv["cmd"],
         "trace_states": tv["states"], "in_scope": n_scope, "input_classes": by_cls, "quirks_modelled": QUIRKS,
         "bindings": ["B2 every TLC-evaluated directory replayed on disk through World.request", "B3 TraceC08"],
     }
